@@ -237,6 +237,24 @@ pub fn url_key(base: &str, filename: &str) -> Option<String> {
     Some(k)
 }
 
+/// The name a conforming client puts into the URL: names with a `/../` detour are requested (and
+/// stored) under their resolved form; every other generated name is used as it is.
+pub fn requested_name(raw: &str) -> String {
+    if raw.contains("/../") {
+        // lexical resolution, independent of the library's: `seg/..` pairs cancel
+        let mut out: Vec<&str> = Vec::new();
+        for seg in raw.split('/') {
+            if seg == ".." {
+                out.pop();
+            } else {
+                out.push(seg);
+            }
+        }
+        return out.join("/");
+    }
+    raw.to_string()
+}
+
 /// Re-key the target files of a built repository by what the client will request.
 pub fn rekey_targets_for_url(built: &mut Built, spec: &RepoSpec) {
     let keys: Vec<String> = built.files.keys().filter(|k| k.starts_with("/targets/")).cloned().collect();
@@ -244,10 +262,11 @@ pub fn rekey_targets_for_url(built: &mut Built, spec: &RepoSpec) {
         built.files.remove(&k);
     }
     for t in all_targets(spec) {
+        let name = requested_name(&t.name);
         let fname = if spec.consistent {
-            format!("{}.{}", crate::json::sha256_hex(&t.content), t.name)
+            format!("{}.{}", crate::json::sha256_hex(&t.content), name)
         } else {
-            t.name.clone()
+            name
         };
         if let Some(key) = url_key(crate::memtransport::TARGETS_BASE, &fname) {
             built.files.insert(key, t.content.clone());
